@@ -301,7 +301,9 @@ var collDefs = []collDef{
 	{kind: "map", kt: "any", vt: "error", lit: `map[any]error{nil: nil}`, n: 1},
 	{kind: "map", kt: "int", vt: "int", lit: `map[int]int(nil)`, n: 0},
 	{kind: "map", kt: "float64", vt: "int", lit: `tr.NaNMap()`, n: 1},
-	{kind: "chan", kt: "int", vt: "", lit: `tr.Chan(3, 4, 5)`, n: 3},
+	// the body observes / shares the channel: one receive per iteration, never ahead of demand
+	{kind: "chan", kt: "int", vt: "", lit: `tr.Chan(3, 4, 5)`, n: 3, muts: []string{"tr.Ev(5, len(c))", "if len(c) > 0 {\n\t\t\ttr.Ev(6, <-c)\n\t\t}"}},
+	{kind: "chan", kt: "int", vt: "", lit: `tr.Chan(3, 4, 5, 6, 7)`, n: 5, muts: []string{"if n == 2 {\n\t\t\ttr.Ev(7, len(c))\n\t\t\tbreak\n\t\t}"}},
 	{kind: "chan", kt: "string", vt: "", lit: `tr.Chan[string]()`, n: 0},
 	{kind: "int", kt: "int", vt: "", lit: `3`, n: 3},
 	{kind: "int", kt: "int", vt: "", lit: `0`, n: 0},
